@@ -86,6 +86,8 @@ def replay(case):
     sp = spc.sp_for(**kw)
     doc = build(scn)
     conv = {'entity_id': env.SP, 'remote_addr': '0.0.0.0', 'request_uri': '/acs'} if scn['conv'] else None
+    if conv and scn.get('convKind') == 'noEntity':
+        del conv['entity_id']
     binding = {'post': env.BINDING_POST, 'redirect': env.BINDING_REDIRECT, 'artifact': BINDING_ART}[scn['binding']]
     outstanding = dict((k, '/came/from/same') for k in OUTSTANDING) if scn.get('sameFrom') else dict(OUTSTANDING)
     if scn.get('mtype') == 'attribute':
@@ -113,7 +115,7 @@ def main():
         keep = []
         for c in cases:
             s = c['scn']
-            special = s['endpoint'] != 'configured' or s['binding'] == 'artifact' or s['conf2'] != 'absent' or s['sameFrom'] or s['mtype'] == 'attribute' or s['window'] != 'both' or (s['aud'] in ('meSlash', 'meUpper') and not s['enc'] and s['binding'] == 'post')
+            special = s['endpoint'] != 'configured' or s['binding'] == 'artifact' or s['conf2'] != 'absent' or s['sameFrom'] or s['mtype'] == 'attribute' or s['window'] != 'both' or s.get('convKind') == 'noEntity' or (s['aud'] in ('meSlash', 'meUpper') and not s['enc'] and s['binding'] == 'post')
             core = not s['enc'] and s['binding'] == 'post'
             decided = c['mustAccept'] or c['mustReject']
             # the small special slices entirely, half of the decided plain/POST product, a seeded sample of the rest
